@@ -125,6 +125,8 @@ func newPools(seed int64, nObj int) *pools {
 			return 0, true
 		case 1:
 			return 0xFF, true
+		case 2:
+			return 0x04, true // 43-character Base58 (tombstone targets become associate values)
 		}
 		return 0, false
 	})
@@ -178,6 +180,9 @@ func newPools(seed int64, nObj int) *pools {
 	}
 	p.parents, p.firsts, p.assocs = mk(3), mk(3), mk(4)
 	p.parents[1][1], p.assocs[0][1], p.assocs[0][2] = 0, 0, 0
+	// small non-zero leading byte => 43-character Base58 string that sorts AFTER the 44-character ones as a string
+	// although the bytes sort before them (only a comparison of the decoded IDs orders such values correctly)
+	p.assocs[1][0], p.parents[2][0], p.firsts[1][0] = 0x03, 0x05, 0x02
 	p.vers = []version.Version{version.New(2, 18), version.New(2, 7), version.New(10, 0)}
 	return p
 }
